@@ -440,7 +440,9 @@ impl Primitive {
             (Self::Module(m1), Self::Module(m2)) => return Ok(Primitive::Bool(m1 == m2)),
             (Self::Function(f1), Self::Function(f2)) => return Ok(Primitive::Bool(f1 == f2)),
             (Self::Vector(v1), Self::Vector(v2)) => {
-                return Ok(Primitive::Bool(v1.addr() == v2.addr()))
+                // the identity of a list is its shared cell, not its buffer: every list without
+                // capacity has the same (dangling) buffer address
+                return Ok(Primitive::Bool(Gc::ptr_eq(&v1.0, &v2.0)))
             }
             (Self::Map(m1), Self::Map(m2)) => return Ok(Primitive::Bool(m1.addr() == m2.addr())),
             _ => (),
